@@ -45,6 +45,8 @@ def build(g, t):
         if len(t) > 4:
             outer.append(build(g, t[4]))          # a predicate / state block reading the labels afterwards
         return g.action(g.seq(outer))
+    if k == "perr":       # a predicate that returns an error together with its boolean
+        return g.pred(t[1], t[2], err=True)
     if k == "pred":       # ("pred", negated, op)
         return g.pred(t[1], t[2], key=(t[3] if len(t) > 3 else "x"), arg=(t[4] if len(t) > 4 else 0))
     if k == "state":      # ("state", op, key, arg)
@@ -222,6 +224,25 @@ def lr_group(rng, gi, cfg=None, pure=False):
     at which a growth attempt was abandoned)."""
     g = Gram(gi)
     g.tags.add("lr")
+    if rng.random() < 0.12:
+        # abandon-and-retry: the last growth attempt evaluates the shared operand rule D (its blocks run, its errors and
+        # state changes must not be retained) and is then abandoned by !'x'; the start rule parses the same operand again
+        # at the same offset:  S <- l:E op D 'x' ;  E <- l:E op D !'x' {..} / D ;  D <- 'n' {..}
+        opc = rng.choice([PLUS, MINUS, STAR_])
+        pre = [g.state("inc", "x", 1)] if (not pure) and rng.random() < 0.5 else []
+        d_body = g.action(g.seq(pre + [g.lit([NN])]) if pre else g.lit([NN]), err=rng.random() < 0.4)
+        rec = g.seq([g.label(g.ref(2)), g.lit([opc]), g.label(g.ref(3)), g.un("not", g.lit([120]))])
+        if rng.random() < 0.7:
+            rec = g.action(rec, err=rng.random() < 0.3)
+        s_body = g.seq([g.label(g.ref(2)), g.lit([opc]), g.label(g.ref(3)), g.lit([120])])
+        if rng.random() < 0.6:
+            s_body = g.action(s_body)
+        g.rules = [s_body, g.choice([rec, g.ref(3)]), d_body]
+        g.lr = [0, 1, 0]
+        g.disp = ["", "", ""]
+        g.compute_args()
+        g.maydiverge = False
+        return g
     height = rng.randint(1, 3)
     wrapped = rng.random() < 0.35
     off = 1 if wrapped else 0          # rule index of tower level L is off + L
